@@ -160,6 +160,10 @@ def wrappers(ctx, rule):
         hit = [bi for bi, c in calls if c == want]
         ok = len(hit) == 1 and has_fact(w, hit[0], {}, ("variant_in", "arg1.repr", (0,)))
         ctx.check(ok, rule, w.path, "forward", "RamBundle::%s forwards to the indexed implementation for indexed bundles, arguments unchanged" % fn, detail=str(calls))
+        # ... and answers nothing on its own: every value the wrapper returns is what one of the two flavours answered
+        rets = [sh for sh, _, _ in q.def_shapes(w, 0, {})]
+        un = want.replace("IndexedRamBundle::", "UnbundleRamBundle::").replace("indexed(arg1.repr)", "unbundle(arg1.repr)")
+        ctx.check(bool(rets) and all(r in (want, un) for r in rets), rule, w.path, "forward:only", "RamBundle::%s returns only what the selected implementation returned (no answer of its own, e.g. for ids past the table)" % fn, detail=str(rets)[:300])
     mc = ctx.body(IRB + "module_count")
     rets = [q.shape(mc.expr_of_rvalue(s["rv"])) for bi, si, s, it in mc.locations() if not it and s["k"] == "assign" and s["place"]["l"] == 0]
     ctx.check(rets == ["arg1.module_count"], rule, mc.path, "module_count", "module_count reports the count read from the header", detail=str(rets))
